@@ -69,9 +69,10 @@ func newSecrets(r *hk.Rng) secrets {
 }
 
 type runner struct {
-	ctx *hk.RunCtx
-	env *env
-	idx uint64
+	ctx     *hk.RunCtx
+	env     *env
+	idx     uint64
+	webEnvs map[webCfg]*webEnv // handlers shared by the sequences of a run (mode "seq")
 }
 
 func (Engine) Run(ctx *hk.RunCtx) error {
@@ -85,6 +86,9 @@ func (Engine) Run(ctx *hk.RunCtx) error {
 	os.Setenv("https_proxy", "http://127.0.0.1:1")
 	os.Unsetenv("NO_PROXY")
 	os.Unsetenv("no_proxy")
+	// ... and in front of that the GitHub stand-in (seqside.go): unreachable unless a sequence
+	// step scripts an answer
+	stub()
 	if os.Getenv("ZV_AUTH_LOG") == "" {
 		golog.SetOutputs(io.Discard, io.Discard)
 	}
@@ -98,9 +102,10 @@ func (Engine) Run(ctx *hk.RunCtx) error {
 	}
 	defer e.close()
 	rn := &runner{ctx: ctx, env: e}
+	defer rn.closeSeqEnvs()
 
 	if ctx.Replay != "" {
-		return rn.replay(ctx.Replay)
+		return rn.replay(ctx.Replay, "")
 	}
 	if ctx.Corpus != "" {
 		if files, _ := os.ReadDir(ctx.Corpus); len(files) > 0 {
@@ -109,12 +114,20 @@ func (Engine) Run(ctx *hk.RunCtx) error {
 				names = append(names, f.Name())
 			}
 			sort.Strings(names)
+			// each corpus file is run by the mode it belongs to (sequences by "seq")
+			only := "single"
+			if ctx.Mode == "seq" {
+				only = "webseq"
+			}
 			for _, n := range names {
-				if err := rn.replay(ctx.Corpus + "/" + n); err != nil {
+				if err := rn.replay(ctx.Corpus+"/"+n, only); err != nil {
 					res.Note("corpus %s: %v", n, err)
 				}
 			}
 		}
+	}
+	if ctx.Mode == "seq" {
+		return rn.seqRun()
 	}
 	rounds := ctx.N
 	if rounds < 1 {
@@ -137,8 +150,9 @@ func (Engine) Run(ctx *hk.RunCtx) error {
 	return nil
 }
 
-// replay runs the single case stored in a replay / corpus file.
-func (rn *runner) replay(path string) error {
+// replay runs the single case stored in a replay / corpus file; only = "webseq" / "single"
+// restricts it to sequence / single-request cases ("" = whatever the file holds).
+func (rn *runner) replay(path string, only string) error {
 	b, err := os.ReadFile(path)
 	if err != nil {
 		return err
@@ -159,7 +173,17 @@ func (rn *runner) replay(path string) error {
 	if err := json.Unmarshal(raw, &probe); err != nil {
 		return err
 	}
+	if (only == "webseq") != (probe.Op == "webseq") && only != "" {
+		return nil
+	}
 	switch probe.Op {
+	case "webseq":
+		var c seqCase
+		if err := json.Unmarshal(raw, &c); err != nil {
+			return err
+		}
+		rn.ctx.Res.Exhaustive = false
+		return rn.runSeqCase(c)
 	case "rpc":
 		var c rpcCase
 		if err := json.Unmarshal(raw, &c); err != nil {
